@@ -18,7 +18,7 @@ LAWS = ['LawAligned', 'LawReadBack', 'LawQueryKeepsEverything']
 
 ATOM = {
     'Zero': lambda: 0, 'False': lambda: False, 'EmptyStr': lambda: '',
-    'EmptyList': lambda: [], 'One': lambda: 1,
+    'EmptyList': lambda: [], 'One': lambda: 1, 'None': lambda: None,
     'QZero': lambda: 0 * units.g, 'QOne': lambda: 1 * units.g,
 }
 MAG = {'QZero': 0, 'QOne': 1}
@@ -171,7 +171,7 @@ def check_case(rep, c, variant=0):
                        'vars': json.dumps(c['vars'])},
                       'C18 %s: expected %r got %r' % (b[0], b[1], b[2]),
                       {'case': c, 'op': b[0]})
-    falsy = any(a in ('Zero', 'False', 'EmptyStr', 'EmptyList', 'QZero')
+    falsy = any(a in ('Zero', 'False', 'EmptyStr', 'EmptyList', 'QZero', 'None')
                 for v in c['vars'] for a in v['vals'])
     if falsy:
         rep.nontrivial.add(json.dumps(c['vars']))
